@@ -67,3 +67,7 @@ prop('C15','exploration','before/after sandbox snapshot + response monitor over 
  'Sends methods x hostile paths x Authorization variants over raw TCP to chunk and index servers (handler behind httptest and real CLI children, authorization from flag and from the environment; writable / read-only; verify-write on / off; compressed / uncompressed) and checks: without exactly the configured value nothing changes and no object is served, read-only servers never change the sandbox, only the canonical object inside the served directory is ever touched, 200 bodies are the requested object, mismatching uploads are refused under write verification.',
  'Plain HTTP over loopback; authorization is asserted negatively only.',
  'DESIGN.md 5/C15')
+prop('C16','exploration','expected-set vs. content-hashed listing before/after prune and verify over generated mixed stores on local / S3-fake / SFTP-shim backends; verify message parser',
+ 'Stores are populated with referenced / unreferenced / invalid chunks in both formats, junk, temp files and misplaced chunk-named files; prune (library, CLI, S3, SFTP; all reference-set kinds) must leave referenced, other-format and non-chunk objects byte-identical and, on success, remove every unreferenced own-format chunk and temp file; verify (n in {1,4,16}, with/without repair, library and CLI) must report exactly the invalid own-format chunks and remove exactly those.',
+ 'S3/SFTP are loopback stand-ins; SFTP opened with N=2 (N=1 deadlocks in SFTPStore.Prune, recorded in DESIGN.md as an observation outside the statement).',
+ 'DESIGN.md 5/C16')
